@@ -472,6 +472,43 @@ class FnText:
         self.text = self.text[:a] + head + first + self.text[b:]
         self._scan()
 
+    def index_for(self, ordinal, idx="verif_k", by_value=False):
+        """rule R9-index: `for P in E.iter() { B }` / `for P in &E { B }` (E a Vec or slice) ->
+        `let mut idx: usize = 0; while idx < E.len() { let P = &E[idx]; idx = idx + 1; B }`   (B verbatim; `continue`/`break` keep their meaning)
+        The loop keeps its ordinal."""
+        ls = self.loops()
+        kw, brace = ls[ordinal - 1]
+        toks = self.toks
+        if toks[kw].s != "for":
+            raise RsxError("loop %d is not a for loop" % ordinal)
+        j = kw + 1
+        pos_in = None
+        while j < brace:
+            s = toks[j]
+            if s.k == "p" and s.s in ("(", "["):
+                j = match_close(toks, j) + 1
+                continue
+            if s.k == "id" and s.s == "in":
+                pos_in = j
+                break
+            j += 1
+        if pos_in is None:
+            raise RsxError("for without in")
+        pat = self.text[toks[kw + 1].a:toks[pos_in - 1].b]
+        expr = self.text[toks[pos_in + 1].a:toks[brace - 1].b].strip()
+        m = re.fullmatch(r"(.+?)\s*\.iter\(\)", expr, re.S) or re.fullmatch(r"&\s*(.+)", expr, re.S)
+        if not m:
+            raise RsxError("for loop %d does not iterate `E.iter()` or `&E`: %r" % (ordinal, expr))
+        e = m.group(1).strip()
+        if not re.fullmatch(r"[\w.]+", e):
+            raise RsxError("for loop %d iterates a compound expression: %r" % (ordinal, e))
+        head = "let mut %s: usize = 0;\n while %s < %s.len() " % (idx, idx, e)
+        first = "{ /*verif:body%d*/ let %s = &%s[%s]; %s = %s + 1;" % (ordinal, pat, e, idx, idx, idx)
+        a, b = toks[kw].a, toks[brace].b
+        self.text = self.text[:a] + head + first + self.text[b:]
+        self._scan()
+        return e
+
     # --- textual rewrites ---
     def insert_before(self, regex, text, count=1):
         ms = list(re.finditer(regex, self.text))
